@@ -665,6 +665,59 @@ func doneCommitPairing(c *Ctx, rule string) {
 	}
 	dones := Calls(fn, false, dc)
 	ei := ErrorResultIndex(fn)
+	// the timestamp handed to doneCommit is the one newCommitTs returned (release what was acquired)
+	var tsVal ssa.Value
+	var tsSlot ssa.Value
+	for _, ref := range *nct[0].Value().Referrers() {
+		if ex, ok := ref.(*ssa.Extract); ok && ex.Index == 0 {
+			tsVal = ex
+			for _, r2 := range *ex.Referrers() {
+				if st, ok := r2.(*ssa.Store); ok && st.Val == ex {
+					tsSlot = st.Addr
+				}
+			}
+		}
+	}
+	isTs := func(f *ssa.Function, v ssa.Value) bool {
+		if v == tsVal && tsVal != nil {
+			return true
+		}
+		u, ok := v.(*ssa.UnOp)
+		if !ok || u.Op != token.MUL || tsSlot == nil {
+			return false
+		}
+		if u.X == tsSlot {
+			return true
+		}
+		if fv, ok := u.X.(*ssa.FreeVar); ok {
+			// bound to the slot by the MakeClosure in commitAndSend
+			for _, b := range fn.Blocks {
+				for _, in := range b.Instrs {
+					if mc, ok := in.(*ssa.MakeClosure); ok && mc.Fn == f {
+						for i, bv := range mc.Bindings {
+							if bv == tsSlot && i < len(f.FreeVars) && f.FreeVars[i] == fv {
+								return true
+							}
+						}
+					}
+				}
+			}
+		}
+		return false
+	}
+	nd := 0
+	check := func(f *ssa.Function) {
+		for _, d := range Calls(f, false, dc) {
+			nd++
+			args := d.Common().Args
+			c.Decide(isTs(f, args[len(args)-1]), rule, key(f, fmt.Sprintf("doneCommit[%d]#arg=newCommitTs-result", ordinalIn(f, d))), d.Pos(), 2, "marks done exactly the timestamp that was begun", "doneCommit is not given the timestamp returned by newCommitTs: the begun commit timestamp is never marked done, txnMark stops advancing and every later readTs()/Close blocks forever")
+		}
+	}
+	check(fn)
+	for _, a := range fn.AnonFuncs {
+		check(a)
+	}
+	c.Decide(nd >= 2, rule, key(fn, "doneCommit-sites"), fn.Pos(), nd+1, "error path and completion callback both mark done", fmt.Sprintf("%d doneCommit sites in commitAndSend (expected the send-error path and the completion callback)", nd))
 	for i, r := range Returns(fn) {
 		if fn.Recover != nil && r.Block() == fn.Recover {
 			continue
@@ -854,12 +907,14 @@ func watermarkPublishOrder(c *Ctx, rule string) {
 
 func C34(c *Ctx) {
 	c.Note("linearizability itself; exactly-once effect under retries; read path ordering with concurrent rotation")
+	partialAckCoverageGroup(c, "K1.failed-request-gets-error")
 	const r1 = "K1.rejected-before-enqueue"
 	c.Rule(r1, "setEntry / SetVersionedEntry: maybeThrottleWrite()==nil precedes batchSet; sendToWriteCh rejections precede enqueue (as C04); batchSet returns the send error without waiting")
 	for _, n := range []string{"DB.setEntry", "DB.SetVersionedEntry"} {
 		fn := c.Fn("", n)
-		beforeOK(c, r1, fn, "maybeThrottleWrite", Named("NoKV.(*DB).maybeThrottleWrite"), "batchSet", Named("NoKV.(*DB).batchSet"), 1)
+		beforeOK(c, r1, fn, "maybeThrottleWrite", Named("NoKV.(*DB).maybeThrottleWrite"), "batchSet|sendToWriteCh", Named("NoKV.(*DB).batchSet", "NoKV.(*DB).sendToWriteCh"), 1)
 	}
+	entryRefOwnershipGroup(c, "K13.entry-ref-ownership")
 	if fn := c.Fn("", "DB.sendToWriteCh"); fn != nil {
 		for _, e := range need(c, r1, fn, false, "enqueueCommitRequest", Named("NoKV.(*DB).enqueueCommitRequest"), 1) {
 			sentinelGuards(c, r1, fn, "ErrTxnTooBig", e.(ssa.Instruction), "enqueueCommitRequest", 2)
